@@ -33,6 +33,7 @@ import (
 	"gverif/engine/swapx"
 	"gverif/engine/twin"
 	"gverif/engine/worksize"
+	"gverif/engine/zeroed"
 )
 
 // A canary is a one-line in-memory mutation of the analysed tree (a
@@ -54,12 +55,12 @@ var canaries = map[string][]canary{}
 // after the property's own analysis.
 var propertyCanaries = map[string][]string{
 	"C01": {"STRIDE.unitidx", "FLAG.unitdiag", "BETA.noread", "BETA.quickret", "BETA.scaleguard", "FLAG.neginc", "STRIDE.index", "STRIDE.len", "STRIDE.start", "STRIDE.rowoffset", "STRIDE.extent", "FLAG.trans", "TWIN.generated", "ASM.units", "ASM.lost"},
-	"C02": {"FLAG.unset", "FLAG.unitdiag", "WORKSIZE.fallback", "OKFLOW.loopstatus", "FACTKIND.pair", "ARGS.order", "ARGS.lencheck", "ARGS.query", "LOOPIDX.unused", "OKFLOW.report", "STRIDE.vecinc", "WORKSIZE.min", "WORKSIZE.querylen"},
-	"C03": {"FLAG.unset", "FLAG.unitdiag", "WORKSIZE.fallback", "GUARD.operand", "FLAG.uplomap", "STRIDE.veclda", "FACTKIND.pair", "LOOPIDX.origin", "ARGS.order", "ARGS.lencheck", "ARGS.query", "LOOPIDX.unused", "OKFLOW.report", "STRIDE.workld", "STRIDE.worknext", "WORKSIZE.min"},
-	"C04": {"SWAP.cond", "STRIDE.contig", "TWIN.bounds", "NILRECV"},
+	"C02": {"ARGS.callee", "FLAG.unset", "FLAG.unitdiag", "WORKSIZE.fallback", "OKFLOW.loopstatus", "FACTKIND.pair", "ARGS.order", "ARGS.lencheck", "ARGS.query", "LOOPIDX.unused", "OKFLOW.report", "STRIDE.vecinc", "WORKSIZE.min", "WORKSIZE.querylen"},
+	"C03": {"ARGS.callee", "FLAG.unset", "FLAG.unitdiag", "WORKSIZE.fallback", "GUARD.operand", "FLAG.uplomap", "STRIDE.veclda", "FACTKIND.pair", "LOOPIDX.origin", "ARGS.order", "ARGS.lencheck", "ARGS.query", "LOOPIDX.unused", "OKFLOW.report", "STRIDE.workld", "STRIDE.worknext", "WORKSIZE.min"},
+	"C04": {"ZEROED.paths", "SWAP.cond", "STRIDE.contig", "TWIN.bounds", "NILRECV"},
 	"C05": {"OVERLAP.extent", "OVERLAP.guard", "MODSET.mat", "OVERLAP.symmetric", "TWIN.shadow"},
 	"C06": {"FACT.deadloop", "FACT.reuse", "FLAG.unset", "OKFLOW.condpath", "FACT.condafter", "FACTKIND.pair", "OKFLOW.use", "OKFLOW.cond", "OKFLOW.report", "FACT.normorder", "FACT.state", "FACT.condunit", "NILRECV"},
-	"C07": {"ARGS.arms", "ARGS.strict", "ARGS.fullrow", "WORKSIZE.querylen", "ARGS.order", "ARGS.lencheck", "ARGS.query", "MAT.order", "ASM.window", "ASM.tail", "STRIDE.len"},
+	"C07": {"ARGS.callee", "ARGS.ldcols", "ARGS.condlen", "ARGS.arms", "ARGS.strict", "ARGS.fullrow", "WORKSIZE.querylen", "ARGS.order", "ARGS.lencheck", "ARGS.query", "MAT.order", "ASM.window", "ASM.tail", "STRIDE.len"},
 	"C08": {"BETA.scaleguard", "CONSTFOLD.underflow", "ASM.lost", "PARAMUSE.read", "ASM.window", "ASM.tail", "ASM.units", "STRIDE.extent", "SIB.guards"},
 	"C09": {"RAW.stride", "GOPROTO.accumzero", "GOPROTO.semcap", "GOPROTO.scratch", "GLOBAL.write", "GOPROTO.capture", "GOPROTO.lockpair", "GOPROTO.sibling", "POOL.uaf"},
 	"C12": {"SWAP.cond", "GRAPHINV.prune", "TWIN.sibguard", "GRAPHINV.panicorder", "GRAPHINV.absent", "GRAPHINV.iterreset", "GRAPHINV.converse", "GRAPHINV.uid", "GRAPHINV.iter", "TWIN.sibstate"},
@@ -101,6 +102,10 @@ func init() {
 		{"FLAG.unset", "mat/gsvd.go", "\t\tjobU = lapack.GSVDNone\n\t\tjobV = lapack.GSVDNone\n\t\tjobQ = lapack.GSVDNone\n\t\tif GSVDU&kind != 0 {", "\t\tif GSVDU&kind != 0 {", func() *core.Result { return flagx.RunUnset(def, core.Pkgs("./mat")) }},
 		{"FLAG.unset", "lapack/gonum/dgeev.go", "\t} else if wantvr {\n\t\tside = lapack.EVRight", "\t} else if wantvr {", func() *core.Result { return flagx.RunUnset(def, core.Pkgs("./lapack/gonum")) }},
 		{"STRIDE.unitidx", "blas/gonum/level2cmplx128.go", "\t// Here, kk points to the beginning of current row in ap.\n\tif incX == 1 && incY == 1 {\n\t\tfor i := 0; i < n; i++ {\n\t\t\tif x[i] != 0 || y[i] != 0 {\n\t\t\t\ttmp1 := alpha * x[i]", "\t// Here, kk points to the beginning of current row in ap.\n\tif incX == 1 {\n\t\tfor i := 0; i < n; i++ {\n\t\t\tif x[i] != 0 || y[i] != 0 {\n\t\t\t\ttmp1 := alpha * x[i]", func() *core.Result { return stride.Run(def, core.Pkgs("./blas/gonum")) }},
+		{"ZEROED.paths", "mat/triband.go", "Data:   useZeroed(t.mat.Data, n*(k+1)),", "Data:   use(t.mat.Data, n*(k+1)),", func() *core.Result { return zeroed.Run(def) }},
+		{"ARGS.condlen", "lapack/gonum/dlansy.go", "case (norm == lapack.MaxColumnSum || norm == lapack.MaxRowSum) && len(work) < n:", "case norm == lapack.MaxColumnSum && len(work) < n:", func() *core.Result { return flagx.RunCondLen(def, core.Pkgs("./lapack/gonum")) }},
+		{"ARGS.ldcols", "lapack/gonum/dgesvd.go", "wantua && ldu < m", "wantua && ldu < minmn", func() *core.Result { return flagx.RunLdCols(def, core.Pkgs("./lapack/gonum")) }},
+		{"ARGS.callee", "lapack/gonum/dsytrd.go", "case len(d) < n:", "case len(d) < n-1:", func() *core.Result { return worksize.RunCallee(def, core.Pkgs("./lapack/gonum")) }},
 		{"BETA.noread", "blas/gonum/level3float64.go", "\tif beta == 0 {\n\t\tfor i := 0; i < m; i++ {\n\t\t\tctmp := c[i*ldc : i*ldc+n]\n\t\t\tfor j := range ctmp {\n\t\t\t\tctmp[j] = 0", "\tif beta == 0 {\n\t\tfor i := 0; i < m; i++ {\n\t\t\tctmp := c[i*ldc : i*ldc+n]\n\t\t\tfor j := range ctmp {\n\t\t\t\tctmp[j] *= beta", func() *core.Result { return flagx.RunBetaZero(def, core.Pkgs("./blas/gonum")) }},
 		{"GUARD.operand", "lapack/gonum/dbdsqr.go", "if ncc > 0 {\n\t\t\t\timpl.Dlasr(blas.Left, lapack.Variable, lapack.Forward, n, ncc, work, work[n-1:], c, ldc)", "if nru > 0 {\n\t\t\t\timpl.Dlasr(blas.Left, lapack.Variable, lapack.Forward, n, ncc, work, work[n-1:], c, ldc)", func() *core.Result { return flagx.RunGuardOperand(def, core.Pkgs("./lapack/gonum")) }},
 		{"GOPROTO.scratch", "optimize/minimize.go", "\tworker := func() {\n\t\tx := make([]float64, dim)\n", "\tx := make([]float64, dim)\n\tworker := func() {\n", func() *core.Result { return goproto.Run(def, core.Pkgs("./optimize")) }},
